@@ -182,6 +182,10 @@ def method(ex, st, recv, name, args, kw, node=None):
             dg = ex.absfun_s("dec_digit", [sort_of(DEC), z3.IntSort()], z3.IntSort())
             yield st, (fresh(INT, "sign")[0], UFL(INT, (lambda i, r=recv.z: dg(r, i)), nd), Sym(INT, exp)); return
     if isinstance(recv, (str, Sym)) and (isinstance(recv, str) or recv.ty.kind == "str"):
+        sm = ex.contracts.get("strmethod:" + name)
+        if sm is not None and isinstance(recv, Sym):
+            yield from sm(ex, st, recv, args, kw); return
+        if name == "split" and isinstance(recv, str) and all(isinstance(a, str) for a in args): yield st, recv.split(*args); return
         if name == "strip" and not args:
             if isinstance(recv, str): yield st, recv.strip(); return
             f = ex.absfun_s("str_strip", [z3.StringSort()], z3.StringSort())
@@ -223,6 +227,8 @@ def method(ex, st, recv, name, args, kw, node=None):
             yield st, Sym(BOOL, z3.PrefixOf(lift(args[0]).z, lift(recv).z)); return
     if type(recv).__name__ == "UFMap" and name == "values":
         yield st, recv.values; return
+    if isinstance(recv, UFDict) and name in ("keys", "values", "items"):
+        yield st, Opaque(); return          # only used to build messages
     if isinstance(recv, UFDict) and name == "get":
         kz = lift_to(recv.key_ty, args[0])
         for s2, b in ex.fork(st, Sym(BOOL, recv.has(kz))):
